@@ -1774,6 +1774,9 @@ func (schema *Schema) visitJSONString(settings *schemaValidationSettings, value 
 		if cp == nil {
 			var err error
 			if cp, err = schema.compilePattern(settings.regexCompiler); err != nil {
+				if schemaErr, ok := err.(*SchemaError); ok {
+					schemaErr.Value = value
+				}
 				if !settings.multiError {
 					return err
 				}
